@@ -348,3 +348,82 @@ Proof.
     apply (nl_consistent_unique force T ss ssi N (flatten prog) P0' P Q Hwf HcP HcQ Hext b x Hb Ho).
   - apply Hext. intros b Hb Ho. apply Hnin. apply in_flat_map. exists b. split; assumption.
 Qed.
+
+(** ---- a zero shock through a model that contains solved blocks: every inner solve returns at once with zero deviations, and so does the outer solve ---- *)
+Lemma add_paths_at_ss N ss devs : forall P, at_ss ss P -> length P = N ->
+  (forall d v, In d devs -> In v (snd d) -> v = g0) -> (forall d, In d devs -> (fst d < N)%nat) ->
+  at_ss ss (add_paths ss devs P) /\ length (add_paths ss devs P) = N.
+Proof.
+  unfold add_paths. induction devs as [|d devs IH]; intros P Hat Hl Hz Hn; cbn [fold_left]; [split; assumption|].
+  assert (Hd : (fst d < length P)%nat) by (rewrite Hl; apply Hn; left; reflexivity).
+  apply IH.
+  - intros x v Hv. rewrite nth_upd_nth in Hv by exact Hd.
+    destruct (Nat.eqb_spec x (fst d)) as [->|Hne]; [|apply Hat; exact Hv].
+    apply in_map_iff in Hv. destruct Hv as [w [Hv Hw]]. subst v.
+    rewrite (Hz d w (or_introl eq_refl) Hw). change g0 with (Q2Qc 0). ring.
+  - rewrite upd_nth_length by exact Hd. exact Hl.
+  - intros d' v Hd' Hv. apply (Hz d' v (or_intror Hd') Hv).
+  - intros d' Hd'. apply Hn. right; exact Hd'.
+Qed.
+
+Lemma nl_ok_at_ss ss Tg tol res : at_ss ss res -> (g0 < tol)%Qc -> nl_ok ss Tg tol res = true.
+Proof.
+  intros Hat Htol. unfold nl_ok. apply forallb_forall; intros tg _. apply forallb_forall; intros v Hv.
+  rewrite (dev_of_at_ss ss res tg v Hat Hv). apply qabs_zero_lt; exact Htol.
+Qed.
+
+Lemma zero_paths_zero (U : list nat) (T : Z) d v : In d (combine U (map (fun _ => repeat g0 (Z.to_nat T)) U)) -> In v (snd d) -> v = g0.
+Proof.
+  intros Hd Hv. destruct d as [u p]. pose proof (in_combine_r _ _ _ _ Hd) as Hp. apply in_map_iff in Hp. destruct Hp as [_ [Hp _]]. subst p.
+  cbn [snd] in Hv. apply repeat_spec in Hv. exact Hv.
+Qed.
+
+Section ZeroShock.
+Variables (force : bool) (im : nat) (itol : Qc) (T : Z) (N : nat) (ss : tbl).
+Hypothesis Hitol : (g0 < itol)%Qc.
+
+Definition block_ok (nb : nblock) : Prop :=
+  ss_consistent ss (blocks_of nb) /\ (forall b oe, In b (blocks_of nb) -> In oe (sb_outs b) -> (fst oe < N)%nat) /\ (forall u, In u (unknowns_of nb) -> (u < N)%nat).
+
+Lemma eval_nblock_at_ss nb P : block_ok nb -> at_ss ss P -> length P = N ->
+  exists P', eval_nblock force (S im) itol T N ss ss P nb = Some P' /\ at_ss ss P' /\ length P' = N.
+Proof.
+  intros (Hc & Hout & HU) Hat Hl. destruct nb as [b|s]; cbn [eval_nblock blocks_of unknowns_of] in *.
+  - destruct (eval_block_at_ss force T ss [b] b P Hc (or_introl eq_refl)) as [Hat' Hl']; [intros oe Hoe; rewrite Hl; apply (Hout b oe (or_introl eq_refl) Hoe) | exact Hat |].
+    eexists. split; [reflexivity|]. split; [exact Hat' | rewrite Hl'; exact Hl].
+  - unfold eval_solved. destruct (force || existsb (perturbed P) (sv_ins s)); [|exists P; split; [reflexivity | split; assumption]].
+    set (U0 := map (fun _ => repeat g0 (Z.to_nat T)) (sv_U s)).
+    destruct (add_paths_at_ss N ss (combine (sv_U s) U0) P Hat Hl) as [Hat0 Hl0].
+    { intros d v Hd Hv. eapply zero_paths_zero; eassumption. }
+    { intros d Hd. apply HU. destruct d as [u p]. exact (in_combine_l _ _ _ _ Hd). }
+    assert (Hres : at_ss ss (inner_results force T ss ss s P U0)).
+    { unfold inner_results. apply nl_eval_at_ss; [exact Hc | rewrite Hl0; exact Hout | exact Hat0]. }
+    destruct (nl_eval_untouched force T ss ss N (sv_inner s) _ Hl0 (fun b o Hb Ho => match in_map_iff fst (sb_outs b) o with conj f _ => match f Ho with ex_intro _ oe (conj E Hoe) => eq_ind _ (fun x => (x < N)%nat) (Hout b oe Hb Hoe) _ E end end)) as [Lr _].
+    unfold inner_solve. fold U0. rewrite nl_loop_first by (apply nl_ok_at_ss; [exact Hres | exact Hitol]).
+    eexists. split; [reflexivity|]. split; [exact Hres | exact Lr].
+Qed.
+
+Lemma neval_at_ss : forall prog P, (forall nb, In nb prog -> block_ok nb) -> at_ss ss P -> length P = N ->
+  exists P', neval force (S im) itol T N ss ss prog P = Some P' /\ at_ss ss P' /\ length P' = N.
+Proof.
+  unfold neval. induction prog as [|nb rest IH]; intros P Hok Hat Hl; cbn [fold_left]; [exists P; split; [reflexivity | split; assumption]|].
+  destruct (eval_nblock_at_ss nb P (Hok nb (or_introl eq_refl)) Hat Hl) as (P1 & E1 & Hat1 & Hl1). rewrite E1.
+  apply IH; [intros nb' H'; apply Hok; right; exact H' | exact Hat1 | exact Hl1].
+Qed.
+
+Theorem nested_zero_shock_lemma maxit prog U Tg shocks tol HU :
+  (forall nb, In nb prog -> block_ok nb) -> (forall d, In d shocks -> (fst d < N)%nat) -> (forall u, In u U -> (u < N)%nat) ->
+  (forall d v, In d shocks -> In v (snd d) -> v = g0) -> (g0 < tol)%Qc ->
+  nn_HU T N ss prog U Tg = Some HU ->
+  let U0 := map (fun _ => repeat g0 (Z.to_nat T)) U in
+  exists res, nn_solve force (S im) itol T N ss ss (S maxit) prog U Tg shocks tol = Converged U0 res /\ forall o v, In v (dev_of ss res o) -> v = g0.
+Proof.
+  intros Hok Hsh HUlt Hz Htol EH U0.
+  destruct (init_paths_at_ss N ss (shocks ++ combine U U0)) as [Hat Hl].
+  { intros d v Hd Hv. apply in_app_or in Hd. destruct Hd as [Hd|Hd]; [apply (Hz d v Hd Hv) | eapply zero_paths_zero; eassumption]. }
+  { intros d Hd. apply in_app_or in Hd. destruct Hd as [Hd|Hd]; [apply Hsh; exact Hd|]. apply HUlt. destruct d as [u p]. exact (in_combine_l _ _ _ _ Hd). }
+  destruct (neval_at_ss prog _ Hok Hat Hl) as (res & Er & Hatr & _).
+  exists res. split; [|intros o v Hv; eapply dev_of_at_ss; eassumption].
+  unfold nn_solve. rewrite EH. cbn [nloop]. fold U0. unfold nn_results. rewrite Er. rewrite (nl_ok_at_ss ss Tg tol res Hatr Htol). reflexivity.
+Qed.
+End ZeroShock.
